@@ -4,4 +4,9 @@ go 1.26.0
 
 require github.com/arloliu/go-secs/v2 v2.0.0
 
+require (
+	github.com/phsym/console-slog v0.3.1 // indirect
+	github.com/puzpuzpuz/xsync/v3 v3.5.1 // indirect
+)
+
 replace github.com/arloliu/go-secs/v2 => /repo
